@@ -204,19 +204,8 @@ func runC16(c *Check, w *World) {
 		})
 	}
 	if pt, ok := extras[genT]["period"]; ok {
-		okP := false
-		if pt.Op == "call" && pt.Sym == "fmt.Sprintf" && pt.Args[0].Sym == `"%d"` {
-			el := varargsElems(tb, pt.Args[1])
-			if len(el) == 1 {
-				okP = true
-				for _, a := range el[0].Alts() {
-					if !(strings.HasPrefix(a.String(), "field(Period; ") || (a.IsConst() && a.Sym == "30")) {
-						okP = false
-					}
-				}
-			}
-		}
-		c.Decide(okP, "R16.5", FuncName(genT), "query:period", "the TOTP URL's period is URLParam.Period (30 when zero), in decimal", "the period parameter is "+clip(pt.String(), 200), w.Pos(genT.Pos()))
+		okP, _ := urlPeriodDefault(w, tb, genT)
+		c.Decide(okP, "R16.5", FuncName(genT), "query:period", "the TOTP URL's period is URLParam.Period (30 when zero), in decimal", "the period parameter is "+clip(tb.Norm(pt).String(), 200), w.Pos(genT.Pos()))
 	} else {
 		c.Bad("R16.5", FuncName(genT), "query:period", "the TOTP URL carries no period parameter", w.Pos(genT.Pos()))
 	}
